@@ -219,14 +219,14 @@ def run(ctx):
     side = {"killed": [], "conc": None, "exc": None}
 
     def expect_rejected(c, cfg, name, overrides=None, by=None):
-        r = c.tlc("HttpChunk", cfg, timeout=300, deadlock=False, workers=4, overrides=overrides, name="spec-mutant/" + name)
+        r = c.tlc("HttpChunk", cfg, timeout=900, deadlock=False, workers=4, overrides=overrides, name="spec-mutant/" + name)
         if r.ok or r.kind != "invariant" or (by and r.violated not in by):
             raise vlib.Infra("spec mutant %s is not rejected by %s (%s/%s): the specification lost its discriminating "
                              "power" % (name, " / ".join(by) if by else "the invariants", r.violated, r.kind))
         return r
 
     def lane_conc(c):
-        side["conc"] = tlc_ok(c, "HttpChunk", "HttpChunk_conc.cfg", timeout=300 if quick else 1200, deadlock=False,
+        side["conc"] = tlc_ok(c, "HttpChunk", "HttpChunk_conc.cfg", timeout=900 if quick else 5000, deadlock=False,
                               seed=ctx.seed, workers=8, overrides=None if quick else {"ConcLen": "3"})
 
     def lane_mutants(c):
@@ -242,7 +242,7 @@ def run(ctx):
             raise vlib.Infra("counterexample of put_before_last_in does not show the hand-over window:\n%s" % r.out[-3000:])
         side["killed"].append("put_before_last_in(conc,observable)->%s[window: other request holds the buffer of a pending In]" % r.violated)
         # gzip reader pool: the faithful three-step sequence, and the double-put switch against the observable invariants
-        tlc_ok(c, "HttpChunk", "HttpChunk_gz.cfg", timeout=300 if quick else 1200, deadlock=False, seed=ctx.seed, workers=8,
+        tlc_ok(c, "HttpChunk", "HttpChunk_gz.cfg", timeout=900 if quick else 5000, deadlock=False, seed=ctx.seed, workers=8,
                overrides={"GzLen": "1" if quick else "2"})
         r = expect_rejected(c, "HttpChunk_gzobs.cfg", "gz_double_put(observable,gz)")
         if not shared_reader_in_trace(r.trace):
@@ -250,14 +250,14 @@ def run(ctx):
         side["killed"].append("gz_double_put(gz,observable)->%s[two requests hold the same gzip reader]" % r.violated)
         # compressed size / Content-Length as a dimension: the whole decompressed body whatever the ratio
         # (M_GzipStreamUnbounded; the switch needs bodies longer than 2 x their compressed size: gzone configuration)
-        tlc_ok(c, "HttpChunk", "HttpChunk_gzone.cfg", timeout=300, deadlock=False, seed=ctx.seed, workers=8,
+        tlc_ok(c, "HttpChunk", "HttpChunk_gzone.cfg", timeout=900, deadlock=False, seed=ctx.seed, workers=8,
                overrides={"GzLen": "4" if quick else "5"})
         r = expect_rejected(c, "HttpChunk_gzone.cfg", "gz_limit_clean_eof", {"Mutant": '"gz_limit_clean_eof"'},
                             by=("LinesExact", "OKOnlyAfterAllLines"))
         side["killed"].append("gz_limit_clean_eof->%s" % r.violated)
         # the pipeline's max_event_size as a dimension: the bytes handed to In are the line's bytes whatever it is
         # (M_CarryUnbounded)
-        tlc_ok(c, "HttpChunk", "HttpChunk_mes.cfg", timeout=300, deadlock=False, seed=ctx.seed, workers=8,
+        tlc_ok(c, "HttpChunk", "HttpChunk_mes.cfg", timeout=900, deadlock=False, seed=ctx.seed, workers=8,
                overrides={"MaxLen": "4" if quick else "5"})
         r = expect_rejected(c, "HttpChunk_mesobs.cfg", "carry_capped(LinesExact only)", by=("LinesExact",))
         side["killed"].append("carry_capped->%s" % r.violated)
@@ -277,7 +277,7 @@ def run(ctx):
             t.start()
             lanes.append((t, c))
     try:
-        res = tlc_ok(ctx, "HttpChunk", cfg, timeout=300 if quick else 2400, deadlock=False, seed=ctx.seed)
+        res = tlc_ok(ctx, "HttpChunk", cfg, timeout=900 if quick else 7200, deadlock=False, seed=ctx.seed)
         exported = res.printed
         if len(exported) < 10000:
             raise vlib.Infra("TLC exported only %d cases" % len(exported))
@@ -306,7 +306,7 @@ def replay_cases(ctx, exported, quick):
     out = os.path.join(ctx.scratch, "c11_out.json")
     binary = ctx.go_test_build("plugin/input/http")
     rc, txt = ctx.run_bin(binary, "^TestVerifC11$", env={"VERIF_CASES": path, "VERIF_OUT": out},
-                          timeout=600 if quick else 3000)
+                          timeout=1200 if quick else 7200)
     if rc != 0 or not os.path.exists(out):
         raise vlib.Infra("C11 harness failed rc=%s:\n%s" % (rc, txt[-3000:]))
     r = json.load(open(out))
